@@ -140,10 +140,15 @@ class Ctx:
         self.cur_buckets.add(bucket)
         if self.scratch:
             return
-        try:
-            size = len(dumps(case))
-        except Exception:
-            size = 1 << 30
+        sc = getattr(self, '_size_cache', None)
+        if sc is not None and sc[0] is case:
+            size = sc[1]
+        else:
+            try:
+                size = len(dumps(case))
+            except Exception:
+                size = 1 << 30
+            self._size_cache = (case, size)
         f = self.findings.get(bucket)
         if f is None:
             self.findings[bucket] = {'count': 1, 'detail': str(detail)[:2000], 'case': to_jsonable(case), 'size': size}
